@@ -43,7 +43,9 @@ def hint_catalogue():
         "U_ab_ac": ["union", arr([a, b]), arr([a, c])], "U_ab_a": ["union", arr([a, b]), arr([a])],
         "U_Ai_A": ["union", arr([a], "i"), arr([a])], "U_A_int": ["union", arr([a]), ["int"]],
         "tupA": ["tupA", arr([a])], "U_tupA_V": ["union", ["tupA", arr([a])], arr([_tok(["*"], "ident", "v")])],
-        "ptA": ["pt", arr([a])], "ptAB": ["pt", arr([a, b])], "ptS_A": ["ptS", arr([a]), S],
+        "ptA": ["pt", arr([a])], "ptAB": ["pt", arr([a, b])], "ptV": ["pt", arr([_tok(["*"], "ident", "v")])],
+        "ptBV": ["pt", arr([_tok(["#", "*"], "ident", "v")])], "ptVa": ["pt", arr([_tok(["*"], "ident", "v"), a])],
+        "U_ptV_A": ["union", ["pt", arr([_tok(["*"], "ident", "v")])], arr([a])], "ptS_A": ["ptS", arr([a]), S],
         "ptS_Q": ["ptS", arr([_tok(["?"], "ident", "a")]), S], "ptS_any": ["ptS", ["any"], S],
     }
 
